@@ -38,15 +38,17 @@ Inductive item :=
 | ItPos (vs : list bytes).               (* V1 .. Vk            a maximal run of values of the positional the counter points at *)
 
 (** ** rendering *)
+(** short names are characters: a cluster spells them in UTF-8 *)
+Definition enc_shorts (fl : list N) : bytes := flat_map utf8_encode fl.
 Definition render_item (it : item) : list bytes :=
   match it with
   | ItLong n => [DASH :: DASH :: n]
   | ItLongEq n v => [DASH :: DASH :: n ++ EQ :: v]
   | ItLongSep n vs => (DASH :: DASH :: n) :: vs
-  | ItCluster fl TNone => [DASH :: fl]
-  | ItCluster fl (TAtt o v) => [DASH :: fl ++ o :: v]
-  | ItCluster fl (TEq o v) => [DASH :: fl ++ o :: EQ :: v]
-  | ItCluster fl (TSep o vs) => (DASH :: fl ++ [o]) :: vs
+  | ItCluster fl TNone => [DASH :: enc_shorts fl]
+  | ItCluster fl (TAtt o v) => [DASH :: enc_shorts fl ++ utf8_encode o ++ v]
+  | ItCluster fl (TEq o v) => [DASH :: enc_shorts fl ++ utf8_encode o ++ EQ :: v]
+  | ItCluster fl (TSep o vs) => (DASH :: enc_shorts fl ++ utf8_encode o) :: vs
   | ItPos vs => vs
   end.
 Definition render (its : list item) : list bytes := flat_map render_item its.
@@ -168,8 +170,9 @@ Definition nosub (tok : bytes) : bool :=
   negb (is_some (possible_subcommand c tok false)) && negb (is_some (possible_subcommand c tok true)).
 (** a long name as it is typed: non-empty, UTF-8, no [=] *)
 Definition name_ok (n : bytes) : bool := negb (is_nil n) && utf8_valid n && negb (mem_n EQ n).
-(** a short name as it is typed: ASCII, not [-] *)
-Definition short_ok (ch : N) : bool := (ch <? 128) && negb (ch =? DASH).
+(** a short name as it is typed: any character (Unicode scalar value) except [-] *)
+Definition scalar (ch : N) : bool := (ch <? 1114112) && negb ((55296 <=? ch) && (ch <? 57344)).
+Definition short_ok (ch : N) : bool := scalar ch && negb (ch =? DASH).
 (** a token that is taken as a value, not as [--], a long or a short flag *)
 Definition value_ok (v : bytes) : bool :=
   negb (is_escape v) && negb (is_some (to_long v)) && negb (is_some (to_short v)).
